@@ -51,7 +51,7 @@ def in_finding_domain(out: Outcome, cls: str, p: dict, const_value) -> str | Non
     return None
 
 
-def check_trace(out: Outcome, cls: str, p: dict, ops: list[tuple], const_value=None, label: str = "") -> dets.Runner | None:
+def check_trace(out: Outcome, cls: str, p: dict, ops: list[tuple], const_value=None, label: str = "", const_after_reset=None) -> dets.Runner | None:
     r = dets.Runner("a", cls, p)
     if r.det is None:
         return None
@@ -69,6 +69,8 @@ def check_trace(out: Outcome, cls: str, p: dict, ops: list[tuple], const_value=N
         else:
             r.reset()
             u = 0
+            if const_after_reset is not None and not any(o[0] == "r" for o in ops[k + 1:]):
+                const_value = const_after_reset      # from the last reset on the stream is constant: the constant-stream clause applies again
         drift, warning = dets.flags(cls, d)
         flagged = flagged or drift or warning
         rep = {"class": cls, "params": p, "ops": ops[: k + 1], "drift": drift, "warning": warning, "op_index": k}
@@ -190,6 +192,22 @@ def run(out: Outcome) -> None:
                 n = rng.randint(20, length)
                 ops = gen.with_resets(rng, [c] * n, p_reset=rng.choice([0.0, 0.03]))
                 r = check_trace(out, cls, p, ops, const_value=c)
+                if r:
+                    runners.append(r)
+    # arbitrary pre-history, reset(), then a constant stream: nothing seen before the reset may cause an alarm on the constant stream that follows
+    for cls in dets.CLASSES:
+        if cls == "BOCD":
+            continue
+        for c in const_values(cls)[:3]:
+            for _ in range(3 if thorough else 1):
+                p = gen.rand_params(rng, cls)
+                if cls in dets.UNIT_INTERVAL:
+                    p = {**dets.full_params(cls, p), "two_sided_test": True}
+                pre = gen.stream_for(rng, cls, rng.randint(5, 80))
+                if cls in dets.BINARY_ONLY or cls in dets.UNIT_INTERVAL:
+                    pre = [1 - c if isinstance(c, int) else 1.0 - c for _ in range(rng.randint(3, 12))] + pre[: rng.randint(0, 10)]
+                ops = [("u", v) for v in pre] + [("r",)] + [("u", c)] * rng.randint(40, 200)
+                r = check_trace(out, cls, p, ops, const_after_reset=c, label="after-reset:")
                 if r:
                     runners.append(r)
     # thorough: default configurations on long streams (default warm-ups and windows are only reached after thousands of instances)
